@@ -115,6 +115,7 @@ func verifyFunction(p *Program, fn *ssa.Function, c *FuncContract, emit func(*Ob
 		fe.errorf("no path of %s reaches a return", fn)
 	}
 	fe.checkOnlyClauses()
+	fe.checkCallees()
 	// every call-site clause of the contract must have been exercised on some path
 	if len(fe.errs) == 0 {
 		for i, cg := range c.CallGhosts {
@@ -124,6 +125,55 @@ func verifyFunction(p *Program, fn *ssa.Function, c *FuncContract, emit func(*Ob
 		}
 	}
 	return fe
+}
+
+var benignCalleePkgs = map[string]bool{"log": true, "fmt": true, "errors": true, "strings": true, "strconv": true, "sync": true}
+var benignCallees = map[string]bool{"time.Now": true, "path/filepath.Join": true, "path.Join": true, "path/filepath.Base": true, "path/filepath.Dir": true, "path/filepath.Ext": true}
+
+// checkCallees: call whitelist (static). Effect-free helpers are always allowed.
+func (fe *FnExec) checkCallees() {
+	if len(fe.C.Callees) == 0 {
+		return
+	}
+	allowed := map[string]bool{}
+	for _, c := range fe.C.Callees {
+		allowed[c] = true
+	}
+	tags := fe.C.CalleesTags
+	if len(tags) == 0 {
+		tags = []string{"support"}
+	}
+	seen := map[string]bool{}
+	for _, b := range fe.Fn.Blocks {
+		for _, in := range b.Instrs {
+			call, ok := in.(ssa.CallInstruction)
+			if !ok {
+				continue
+			}
+			c := call.Common()
+			if _, isB := c.Value.(*ssa.Builtin); isB {
+				continue
+			}
+			short := calleeShortName(c)
+			if f, ok := c.Value.(*ssa.Function); ok && f.Pkg != nil {
+				if benignCalleePkgs[f.Pkg.Pkg.Path()] || benignCallees[f.Pkg.Pkg.Path()+"."+f.Name()] {
+					continue
+				}
+			}
+			if seen[short] {
+				continue
+			}
+			seen[short] = true
+			status := "unsat"
+			if !allowed[short] {
+				status = "sat"
+			}
+			fe.nObl++
+			fe.emit(&Obligation{Func: shortFn(fe.Fn.String()), Name: fe.oblName("callees/" + short), Kind: "frame", Tags: tags,
+				Text: "calls " + short + "; declared callees: " + strings.Join(fe.C.Callees, ", "), Pos: fe.pos(in.Pos()),
+				Result: SolverResult{Status: status, Solver: "syntactic", Raw: "static call whitelist: " + short}})
+		}
+	}
 }
 
 // checkOnlyClauses: static resource discipline. Every call that receives the named
@@ -220,6 +270,11 @@ func contractTags(c *FuncContract) []string {
 			if t != "support" {
 				set[t] = true
 			}
+		}
+	}
+	for _, t := range c.CalleesTags {
+		if t != "support" {
+			set[t] = true
 		}
 	}
 	for _, cg := range c.CallGhosts {
